@@ -225,6 +225,18 @@ def gen_kcmf(rng, cid):
         if ops[-1]["op"] in ("setiter", "setmesh") and rng.random() < 0.9 or rng.random() < 0.3:
             ops.append({"op": "get", "expect_mesh": cur})
     ops.append({"op": "get", "expect_mesh": cur})
+    # the user mutates the returned matrices in place: later results (same state, and after Need_Update) must not change
+    MUT = ["data", "elim", "indices", "indptr", "setdiag", "imul", "resize", "sort", None]
+    out = []
+    for o in ops:
+        out.append(o)
+        if o["op"] == "get" and rng.random() < 0.5:
+            o["mutate"] = [rng.choice(MUT) for _ in range(4)]
+            out.append({"op": "get", "expect_mesh": o["expect_mesh"]})
+            if rng.random() < 0.5:
+                out.append({"op": "needupdate"})
+                out.append({"op": "get", "expect_mesh": o["expect_mesh"]})
+    ops = out
     conn = {str(g["gid"]): g["connect"] for m in meshes for g in m["groups"]}
     nPe = {str(g["gid"]): g["nPe"] for m in meshes for g in m["groups"]}
     return {"id": cid, "kcmf": True, "complex": False, "meshes": meshes, "mesh0": 0, "dof_n": [d], "tables": tables, "ops": ops,
@@ -391,6 +403,7 @@ def run(ctx):
 
     correspondence(ctx)
     big_index(ctx)
+    magnitudes(ctx)
 
 
 def correspondence(ctx):
@@ -445,6 +458,13 @@ def correspondence(ctx):
         case = byid[cid]
         if not pf:
             key = "assembly-raises"
+        elif case.get("kcmf") and pf.get("alias"):
+            key = "returned-matrices-alias-internal-state"
+            what = "Get_K_C_M_F #%d: %s" % (pf["assembly_index"], pf["impl"])
+        elif case.get("kcmf") and any(o.get("mutate") for o in case["ops"][:pf["op_index"]]) and pf.get("active_mesh") == pf.get("expected_mesh"):
+            key = "assembly-not-scatter-add:after-mutating-returned-matrices"
+            what = "Get_K_C_M_F #%d slot %s is not the scatter-add after the user modified previously RETURNED matrices in place (%s): returned objects alias internal state (stored matrices / cached pattern)" % (
+                pf["assembly_index"], pf["slot"], [o.get("mutate") for o in case["ops"][:pf["op_index"]] if o.get("mutate")])
         elif case.get("kcmf"):
             key = "assembly-not-scatter-add:active-mesh-history"
             what = "Get_K_C_M_F #%d slot %s is not the scatter-add for the active mesh (active mesh %s, expected %s) after %s" % (
@@ -685,6 +705,65 @@ def big_index(ctx):
     ctx.cov["large_index_cases"] = len(cases)
     ctx.cov["large_index_Ndof"] = sorted(c["meshes"][0]["Nn"] * c["dof_n"][0] for c in cases)
     ctx.cov["large_index_slots_compared"] = nslots
+
+
+def gen_contrast(rng, cid):
+    """one assembly whose element values m * 2^e mix magnitudes differing by 2^54 (1.8e16) and more, at tiny or huge
+    overall scale; optionally complex; random memory layouts"""
+    cplx = rng.random() < 0.3
+    mesh = gen_mesh(rng, 1)
+    maxn = max(g["nPe"] for g in mesh["groups"])
+    d = rng.randint(1, max(1, min(3, 12 // maxn)))
+    base_e = rng.choice([-200, -90, -60, -30, 0, 30, 90, 200])
+    table = []
+    for g in mesh["groups"]:
+        Ne, n = len(g["connect"]), g["nPe"] * d
+        ge = base_e + rng.choice([0, 54, -54, 70, -70, 110])
+
+        def vals(k):
+            out = []
+            for _ in range(k):
+                e = ge + rng.choice([0, 0, 0, 20, -20, 54, -54, 60])
+                m = rng.randint(-9, 9)
+                if cplx and rng.random() < 0.5:
+                    out.append([[m, e], [rng.randint(-9, 9), ge + rng.choice([0, 54, -54])]])
+                else:
+                    out.append([m, e])
+            return out
+        table.append([g["gid"], [vals(Ne * n * n), None if rng.random() < 0.5 else vals(Ne * n * n), None, None if rng.random() < 0.4 else vals(Ne * n)]])
+    rng.shuffle(table)
+    conn = {str(g["gid"]): g["connect"] for g in mesh["groups"]}
+    nPe = {str(g["gid"]): g["nPe"] for g in mesh["groups"]}
+    c = {"id": cid, "contrast": True, "complex": cplx, "meshes": [mesh], "mesh0": 0, "dof_n": [d], "table": table,
+         "shifts": [rng.choice([-60, -30, 40, 100])], "ops": [], "conn": conn, "nPe": nPe}
+    c["layouts"] = {str(g): [None if x is None or rng.random() < 0.5 else ("fe:" if rng.random() < 0.5 else "") + rng.choice(LAYOUTS) for x in four] for g, four in table}
+    return c
+
+
+def magnitudes(ctx):
+    rng = ctx.rng
+    n = 24 if ctx.tier == "quick" else 300
+    cases = [gen_contrast(rng, 800000 + i) for i in range(n)]
+    rc, out, err = ctx.impl_python(IMPL, input=json.dumps({"cases": cases}), timeout=900)
+    if rc != 0 or "@@JSON@@" not in out:
+        ctx.obligation("corr-mag:impl-run", False, err[-1500:])
+        ctx.violation("corr:impl-crash", "implementation-side harness failed on the magnitude cases: " + (err.strip().splitlines()[-1][:300] if err.strip() else "rc=%d" % rc), {"stderr": err[-3000:]}, found_input=False)
+        return
+    results = {r["id"]: r for r in json.loads(out[out.rindex("@@JSON@@") + 8:].split("\n", 1)[0])["results"]}
+    bad = []
+    for c in cases:
+        res = results[c["id"]]
+        if res.get("error"):
+            bad.append((c, "raised " + res["error"]))
+        elif res["prop_fail"]:
+            bad.append((c, "slot %s: %s" % (res["prop_fail"]["slot"], res["prop_fail"]["impl"])))
+        ctx.note_case("mag:%d" % c["id"])
+    split_obl(ctx, "corr-mag:coefficientwise-relative-and-exact-rescaling", len(bad), len(cases), "; ".join(w for _, w in bad[:2])[:600])
+    if bad:
+        c, what = bad[0]
+        ctx.violation("assembly-not-scatter-add:magnitude", "magnitude case %d (values m*2^e with contrasts >= 2^54 inside one assembly, complex=%s): %s (%d cases)" % (c["id"], c["complex"], what[:500], len(bad)),
+                      {"replay_py": REPLAY % dict(case=json.dumps(c), expected=None), "case": c}, found_input=True)
+    ctx.cov["magnitude_cases"] = len(cases)
 
 
 def check_renumbering(base, new, perms, ra, rb):
